@@ -82,6 +82,11 @@ def fam_c(tier):
                                 sc3 = [(1, 0, w0 - 1, 0, 0)]
                                 objs.append((C, F.daqmx_enc(na, sc3, widths), nscales(sc3)))
                             yield ('C', [G.seg(objs, chunks=chunks, big=big), G.seg([], meta=False, chunks=1, big=big)])
+                            if chunks == 1 and off2 == 0:
+                                # byte order is a per-segment flag: metadata-less and 'same as before' segments in the other order
+                                same = [(o[0], ['SAME']) for o in objs]
+                                yield ('C', [G.seg(objs, chunks=1, big=big), G.seg([], meta=False, chunks=2, big=not big),
+                                             G.seg(same, newlist=False, chunks=1, big=big), G.seg(same, newlist=False, chunks=1, big=not big)])
 
 
 def check_file(hist, seed, windows=True):
